@@ -72,3 +72,73 @@ func vC12Conc(L int) {
 
 func vhC12_conc_L2() { vC12Conc(2) }
 func vhC12_conc_L3() { vC12Conc(3) }
+
+// C12 (overlapping subscriptions over a hot source): subscriber A arrives, the source emits,
+// subscriber B arrives later, the source emits to both, A leaves, the source emits to B, B leaves.
+// Each subscriber must get exactly what the entry's reference gives for the values emitted while
+// it was subscribed, and leaving releases that subscriber's own upstream subscription, exactly
+// once, and nobody else's (C03).
+func vC12Overlap(L int) {
+	op := &vCatalog[vChoice("entry", len(vCatalog))]
+	if op.nsrc != 1 {
+		vAssume(false)
+	}
+	p := &vProbe{name: "src"}
+	c := &vCtx{src: []Observable[int64]{p}, L: L}
+	pipe := op.mk(c)
+	ra, rb := &vRecorder{name: "a"}, &vRecorder{name: "b"}
+	var inA, inB []vStep
+	to := func(i int, v int64) bool {
+		if i < len(p.dests) && p.torn[i] == 0 && !p.ended[i] {
+			p.emitAt(i, vStep{vkNext, v})
+			return true
+		}
+		return false
+	}
+	subA := pipe(context.Background(), ra)
+	if p.subs != 1 {
+		vAssume(false) // entries that do not subscribe their source exactly once per subscription
+	}
+	for i := 0; i < vChoice("pre", 2); i++ {
+		v := vInt64("vp" + vItoa(i))
+		if to(0, v) {
+			inA = append(inA, vStep{vkNext, v})
+		}
+	}
+	subB := pipe(context.Background(), rb)
+	if p.subs != 2 {
+		vAssume(false)
+	}
+	nBoth := vChoice("both", L+1)
+	for i := 0; i < nBoth; i++ {
+		v := vInt64("vb" + vItoa(i))
+		if to(0, v) {
+			inA = append(inA, vStep{vkNext, v})
+		}
+		if to(1, v) {
+			inB = append(inB, vStep{vkNext, v})
+		}
+	}
+	subA.Unsubscribe()
+	vAssert(p.torn[0] == 1 || p.ended[0], op.name+": leaving did not release the subscriber's own upstream subscription (overlapping subscriptions of one pipeline)")
+	if rb.terminals() == 0 {
+		vAssert(p.torn[1] == 0, op.name+": one subscriber leaving released the upstream subscription of another (overlapping subscriptions of one pipeline)")
+	}
+	for i := 0; i < vChoice("post", 2); i++ {
+		v := vInt64("vq" + vItoa(i))
+		if to(1, v) {
+			inB = append(inB, vStep{vkNext, v})
+		}
+	}
+	subB.Unsubscribe()
+	vAssert(p.torn[1] <= 1 && p.torn[0] <= 1, op.name+": an upstream subscription was released more than once (overlapping subscriptions of one pipeline)")
+	vAssert(p.live == 0, op.name+": an upstream subscription is still held after both subscribers left (overlapping subscriptions of one pipeline)")
+	if op.ref != nil {
+		vSameEvents(op.name+" (first of two overlapping subscriptions)", ra.evs, op.ref(c, inA))
+		vSameEvents(op.name+" (second of two overlapping subscriptions)", rb.evs, op.ref(c, inB))
+	}
+	vReach("end")
+}
+
+func vhC12_overlap_L1() { vC12Overlap(1) }
+func vhC12_overlap_L2() { vC12Overlap(2) }
